@@ -9,7 +9,7 @@ from ..registry import SPECS, Batch, fresh_cfg, public_cfg, new_metric
 from ..engine import observe, same_obs, obs_json, snapshot, snap_equal, try_update, gen_stream
 
 FAULTS = ["drop_dim", "add_dim", "shorter", "longer", "size1", "empty", "zerodim", "to_bool", "to_int", "to_f64", "to_f16",
-          "neg_label", "big_label", "nan", "inf", "none", "string", "pylist", "missing_arg", "extra_kwarg"]
+          "neg_label", "big_label", "nan", "inf", "none", "string", "pylist", "missing_arg", "extra_kwarg", "wider_all"]
 
 
 def mutate_tensor(t: torch.Tensor, fault: str):
@@ -60,6 +60,14 @@ def faulty(b: Batch, fault: str, which: int):
         return Batch(b.args[:-1], dict(b.kwargs)) if b.args else None
     if fault == "extra_kwarg":
         return Batch(b.args, {**b.kwargs, "bogus_argument": 1})
+    if fault == "wider_all":
+        # a batch that is consistent on its own (every >=2-D tensor gets one more column) but whose number of outputs /
+        # classes / samples-per-task differs from what the history established: it can only fail late, at the
+        # accumulation into the existing state — exactly where a half-applied update would show
+        if not any(isinstance(a, torch.Tensor) and a.ndim >= 2 for a in b.args):
+            return None
+        w = lambda a: torch.cat([a, a[..., :1]], dim=-1) if isinstance(a, torch.Tensor) and a.ndim >= 2 and a.shape[-1] >= 1 else a
+        return Batch(tuple(w(a) for a in b.args), {k: w(v) for k, v in b.kwargs.items()})
     args = list(b.args)
     idx = [i for i, a in enumerate(args) if isinstance(a, torch.Tensor)]
     if not idx:
@@ -106,7 +114,7 @@ def run_case(case):
             return {"skip": True}
         r = call_real(lambda: spec.functional(cfg, fb))
         return {"raised": r[1] if r[0] == "err" else None}
-    hist = gen_stream(spec, cfg, rng, rng.randint(0, 2))
+    hist = gen_stream(spec, cfg, rng, rng.randint(1 if fault == "wider_all" else 0, 2))
     m, twin = new_metric(spec, cfg), new_metric(spec, cfg)
     for b in hist:
         b.apply(m); b.apply(twin)
